@@ -325,3 +325,78 @@ def ev(e, env):
                 return isinstance(v, table[tn])
         raise Unsupported('call')
     raise Unsupported(type(e).__name__)
+
+
+def _stored_names(node):
+    out = set()
+    for x in ast.walk(node):
+        if isinstance(x, ast.Name) and isinstance(x.ctx, ast.Store):
+            out.add(x.id)
+    return out
+
+
+def relevant_names(func, targets):
+    """names whose values (or the guards of whose assignments) feed ``targets``"""
+    rel = set(targets)
+    changed = True
+    while changed:
+        changed = False
+
+        def visit(stmts, guard_names):
+            nonlocal changed
+            for st in stmts:
+                if isinstance(st, (ast.Assign, ast.AugAssign, ast.AnnAssign)):
+                    if _stored_names(st) & rel:
+                        val = st.value
+                        need = {x.id for x in ast.walk(val) if isinstance(x, ast.Name)} if val is not None else set()
+                        need |= guard_names
+                        if not need <= rel:
+                            rel.update(need)
+                            changed = True
+                elif isinstance(st, ast.If):
+                    g = guard_names | {x.id for x in ast.walk(st.test) if isinstance(x, ast.Name)}
+                    visit(st.body, g)
+                    visit(st.orelse, g)
+        visit(func.body, set())
+    return rel
+
+
+def run_slice(func, targets, env, stop_at=None):
+    """
+    Propagate constants through the statements of ``func`` that can influence
+    the names in ``targets`` (their assignments and the if-statements around
+    them), skipping everything else; stops at statement ``stop_at``.  Returns
+    the environment.  Raises Unsupported when a relevant test / value does
+    not fold.
+    """
+    rel = relevant_names(func, targets)
+    env = dict(env)
+
+    class _Stop(Exception):
+        pass
+
+    def contains_relevant(st):
+        return any(isinstance(x, (ast.Assign, ast.AugAssign, ast.AnnAssign)) and _stored_names(x) & rel
+                   for x in ast.walk(st))
+
+    def go(stmts):
+        for st in stmts:
+            if st is stop_at or (stop_at is not None and any(x is stop_at for x in ast.walk(st))
+                                 and not isinstance(st, ast.If)):
+                raise _Stop()
+            if isinstance(st, (ast.Assign, ast.AugAssign)):
+                if _stored_names(st) & rel:
+                    block([st], env, [0], 10)
+            elif isinstance(st, ast.If):
+                if contains_relevant(st) or (stop_at is not None and any(x is stop_at for x in ast.walk(st))):
+                    if truth(ev(st.test, env)):
+                        go(st.body)
+                    else:
+                        go(st.orelse)
+            elif isinstance(st, ast.Return):
+                raise _Stop()
+    try:
+        go(func.body)
+    except _Stop:
+        pass
+    return env
